@@ -209,6 +209,10 @@ let handle (cmd : ostring) (args : ostring list) : ostring =
       show_result (fun (ti, items) -> hex_of_z ti.ts_base ^ "," ^ hex_of_z ti.ts_exp ^ "," ^ hex_of_z ti.ts_offset ^ ";" ^
                      String.concat "|" (List.map (function RPkt (t, d) -> "P:" ^ hex_of_z t ^ ":" ^ hex_of_bytes_strict d | RDsb d -> "D:" ^ hex_of_bytes_strict d) items))
         (x_pcapng (bytes_of_hex file))
+  | "readlegacy", [file] ->
+      show_result (fun (nano, ps) -> (if nano then "1" else "0") ^ ";" ^
+                     String.concat "|" (List.map (fun ((sec, sub), d) -> hex_of_z sec ^ ":" ^ hex_of_z sub ^ ":" ^ hex_of_bytes_strict d) ps))
+        (x_read_legacy (bytes_of_hex file))
   | "legacyus", [nano; sec; sub] -> (match x_legacy_us (nano = "1") (z_of_hex sec) (z_of_hex sub) with Some v -> "Some " ^ hex_of_z v | None -> "None")
   | "timeus", [n; d; off] -> (match x_time_us (z_of_hex n) (z_of_hex d) (z_of_hex off) with Some v -> "Some " ^ hex_of_z v | None -> "None")
   | "keylog", [text] ->
